@@ -95,7 +95,7 @@ def import_arrangements(rng, n):
     out = []
     ok = HEAD + "Die öffentliche Zahl g%d ist %d.\n"
     for _ in range(n):
-        k = rng.below(9)
+        k = rng.below(11)
         files = {}
         if k == 0:      # missing file
             files["main.ddp"] = HEAD + 'Binde "gibtsnicht" ein.\nSchreibe 1.\n'
@@ -124,11 +124,55 @@ def import_arrangements(rng, n):
         elif k == 7:    # import path oddities
             files["m.ddp"] = ok % (1, 1)
             files["main.ddp"] = HEAD + 'Binde "%s" ein.\nSchreibe 1.\n' % ["", ".", "..", "m.ddp", "./m", "m/", "Duden", "Duden/", "/etc/passwd", "m\\n"][rng.below(10)]
+        elif k == 9:    # directory imports: missing, empty, a file, itself, nested, with a broken module
+            files["dir/a.ddp"] = ok % (1, 1)
+            files["dir/tief/b.ddp"] = "Die Zahl ist ist.\n" if rng.below(2) else ok % (2, 2)
+            files["leer/.keep"] = ""
+            what = ["dir", "dir/", "leer", "gibtsnicht", "dir/a.ddp", ".", "..", "dir/tief", "", "Duden", "/"][rng.below(11)]
+            files["main.ddp"] = HEAD + 'Binde %salle Module aus "%s" ein.\nSchreibe 1.\n' % ("rekursiv " if rng.below(2) else "", what)
+        elif k == 10:   # directory imports that lead back to the importer
+            files["dir/a.ddp"] = HEAD + 'Binde %salle Module aus "%s" ein.\n' % ("rekursiv " if rng.below(2) else "", ["..", ".", "../dir"][rng.below(3)]) + ok % (1, 1)
+            files["main.ddp"] = HEAD + 'Binde alle Module aus "dir" ein.\nSchreibe g1.\n'
         else:           # empty and whitespace-only modules
             files["leer.ddp"] = ["", "\n\n", "\t\t", "[ nur ein Kommentar ]", "[ offen"][rng.below(5)]
             files["main.ddp"] = HEAD + 'Binde "leer" ein.\nSchreibe 1.\n'
         out.append({"files": files, "main": "main.ddp"})
     return out
+
+
+FN = ('Die Funktion foo gibt nichts zurück, macht:\n\tDie Zahl innen ist 1.\nUnd kann so benutzt werden:\n\t"foo"\n'
+      'Die Zahlen Liste ls ist eine Liste, die aus 1, 2 besteht.\n')
+# where a single statement is expected
+HEADERS = ["Wenn wahr, ", "Wenn falsch, foo.\nSonst ", "Wenn falsch, foo.\nWenn aber wahr, ", "Solange falsch, ", "Mache:\n\tfoo.\nSolange falsch.\nWenn wahr, ",
+           "Für jede Zahl i von 1 bis 2, ", "Für jede Zahl i von 1 bis 2 mit Schrittgröße 1, ", "Für jede Zahl i in ls, ", "Wiederhole:\n\tfoo.\n2 Mal.\nWenn wahr, ",
+           "Wenn wahr, dann:\n\t", "Solange falsch, mache:\n\t", "Die Funktion bar gibt nichts zurück, macht:\n\t", ""]
+# everything a statement or declaration can begin with (complete forms; their prefixes are added)
+STARTERS = ['Der Alias "bar" steht für die Funktion foo.', 'Der öffentliche Alias "bar" steht für die Funktion foo.', 'Der Alias "bar" steht für die Funktion gibtsnicht.',
+            'Der Alias "" steht für die Funktion foo.', 'Der Alias "<x>" steht für die Funktion foo.',
+            'Die Funktion baz gibt nichts zurück, macht:\n\tfoo.\nUnd kann so benutzt werden:\n\t"baz"', 'Die Funktion baz gibt nichts zurück, wird später definiert und kann so benutzt werden:\n\t"baz"',
+            'Die generische Funktion gen mit dem Parameter p vom Typ T, gibt nichts zurück, macht:\n\tfoo.\nUnd kann so benutzt werden:\n\t"gen <p>"',
+            'Die Funktion ext gibt nichts zurück, ist in "ext.c" definiert und kann so benutzt werden:\n\t"ext"',
+            'Wir nennen die Kombination aus\n\tder Zahl x mit Standardwert 1,\neinen Punkt, und erstellen sie so:\n\t"ein Punkt"', 'Wir nennen eine Zahl auch eine Nummer.',
+            'Wir definieren eine Nummer als eine Zahl.', 'Binde "Duden/Texte" ein.', 'Binde foo aus "main" ein.', 'Binde alle Module aus "x" ein.', 'Die Zahl z ist 1.',
+            'Die öffentliche Zahl z ist 1.', 'Die Konstante K ist 1.', 'Der Wahrheitswert w ist wahr, wenn 1 gleich 1 ist.', 'Die Zahlen Liste l2 ist 3 Mal 1.', 'Gib 1 zurück.', 'Gib zurück.',
+            'Verlasse die Funktion.', 'Verlasse die Schleife.', 'Fahre mit der Schleife fort.', 'Speichere 1 in innen.', 'Erhöhe innen um 1.', 'foo.', ':', 'dann:', 'Sonst foo.', 'Wenn aber wahr, foo.',
+            'Und kann so benutzt werden:\n\t"x"', 'mache:', 'Mache:', 'Wiederhole:', '2 Mal.', 'Solange wahr.', '...', 'Der Operator', 'Die Funktion plus2 mit den Parametern a und b vom Typ Zahl und Zahl, gibt eine Zahl zurück, macht:\n\tGib 1 zurück.\nUnd überlädt den "plus" Operator.']
+
+
+def nested_starts(quick):
+    """every statement/declaration start (and its prefixes) in every position where one statement is expected"""
+    for h in HEADERS:
+        for st in STARTERS:
+            forms = [st]
+            ws = st.split(" ")
+            if not quick or len(ws) <= 8:
+                forms += [" ".join(ws[:k]) for k in range(1, len(ws))]
+            elif quick:
+                forms += [" ".join(ws[:k]) for k in (1, 2, 3, len(ws) - 1)]
+            for f in forms:
+                yield FN + h + f + "\n"
+                if not quick:
+                    yield FN + h + f + ".\nfoo.\n"
 
 
 def duden_sources(ddp, limit=8):
@@ -161,6 +205,8 @@ def requests(rng, ddp, base_programs, quick):
             out.append(("duden-token-mutant", {"files": {"main.ddp": m}, "main": "main.ddp"}))
     for rq in import_arrangements(rng, 60 if quick else 600):
         out.append(("imports", rq))
+    for src in nested_starts(quick):
+        out.append(("nested-start", {"files": {"main.ddp": src}, "main": "main.ddp"}))
     # deep nesting (stack exhaustion candidates)
     for depth in ([50, 400] if quick else [50, 400, 3000, 20000]):
         out.append(("deep-parens", {"files": {"main.ddp": HEAD + "Die Zahl z ist " + "(" * depth + "1" + ")" * depth + ".\n"}, "main": "main.ddp"}))
